@@ -6,6 +6,7 @@ import TinyHttpModel.RespCase
 import TinyHttpModel.ConnCase
 import TinyHttpModel.QueueCase
 import TinyHttpModel.PoolCase
+import TinyHttpModel.SrvCase
 
 open TH TH.Proto
 
@@ -19,6 +20,7 @@ def handle (line : String) : Option String :=
       else if kind == "conn" then some (ConnCase.run rest)
       else if kind == "queue" then some (QueueCase.run rest)
       else if kind == "pool" then some (PoolCase.run rest)
+      else if kind == "srv" then some (SrvCase.run rest)
       else some ("res id=" ++ get rest "id" ++ " agree=0 diff=unknown-kind:" ++ kind)
     | [] => none
 
